@@ -285,8 +285,12 @@ Definition x_render (g : xcfg) (fl : xflags) (have_caps remote include_crds outd
       if negb w1 then XRet RFail else
       w2 <- (if outdir then write_files (List.length (xc_mani c)) else XRet true) ;;
       if negb w2 then XRet RFail else
+      (* :212 HideSecret: a v1 Secret is replaced by a comment in the aggregated document *)
+      let shown := if fb fl "HideSecret"
+                   then filter (fun r => negb (String.eqb (r_kind r) "Secret")) (xc_mani c)
+                   else xc_mani c in
       let buf := if outdir then []
-                 else ((if include_crds then List.concat (xc_crds c) else []) ++ xc_mani c)%list in
+                 else ((if include_crds then List.concat (xc_crds c) else []) ++ shown)%list in
       if fb fl "PostRenderer" then
         r <- xperform (XPostRender buf) ;;
         match r with None => XRet RFail | Some m => XRet (ROk m) end
@@ -562,3 +566,21 @@ Section XOps.
     | XTemplate _ _ _ _ _ => true
     end.
 End XOps.
+
+(* ------------------------------------------------------------------ *)
+(* running a program under a handler: the emitted effects, in order      *)
+Section XRun.
+  Variable S : Type.
+  Variable h : forall e : xeff, S -> S * xresp e.
+
+  Fixpoint xrun {A} (p : xprog A) (s : S) : list xeff * S * A :=
+    match p with
+    | XRet a => ([], s, a)
+    | XEff e k =>
+        let '(s', r) := h e s in
+        let '(tr, s'', a) := xrun (k r) s' in
+        (e :: tr, s'', a)
+    end.
+
+  Definition xtrace {A} (p : xprog A) (s : S) : list xeff := fst (fst (xrun p s)).
+End XRun.
